@@ -168,7 +168,15 @@ def run_case(case):
     log_ids, log_updates = [], []
     sf_layout = int(rng.integers(2))      # the selection function may hand over Fortran-ordered intermediate values
 
+    wide = klass.startswith('CPA') and rng.random() < 0.3       # 16-bit intermediate values handed to the Value model unchanged
+    wide_dt = ['uint16', 'int32', 'int64'][int(rng.integers(3))]
+
     def sf_formula(vv, guesses=None):
+        if wide:
+            w16 = (vv.astype('int64') * 251 + 3) % 65536
+            if guesses is None:
+                return w16.astype(wide_dt)
+            return np.stack([(w16 ^ (int(g) * 4099)) % 65536 for g in guesses], axis=1).astype(wide_dt)
         if guesses is None:
             return (vv ^ 0x3c).astype('uint8')
         out = np.empty((vv.shape[0], len(guesses), vv.shape[1]), dtype='uint8')
@@ -188,6 +196,9 @@ def run_case(case):
             return sf_formula(np.asarray(v))
 
     model = scared.Monobit(bit) if dpa else (scared.HammingWeight() if klass != 'TemplateBuild' or rng.random() < 0.5 else scared.Value())
+    if wide:
+        model = scared.Value()
+        t.count('wide_intermediate_values')
     parts = None
     if part:
         if isinstance(model, scared.HammingWeight):
@@ -276,7 +287,14 @@ def run_case(case):
         scared.set_batch_size(setting)
         for r in range(nruns):
             sub = ths[cuts[r]:cuts[r + 1]]
-            cont = scared.Container(sub, frame=frame, preprocesses=list(chain)) if frame is not None or rng.random() < 0.5 else scared.Container(sub, preprocesses=list(chain))
+            if rng.random() < 0.2:
+                # the frame is a public attribute: built with another frame, set to the intended one before use
+                decoy, _ = _frame(rng, T)
+                cont = scared.Container(sub, frame=decoy, preprocesses=list(chain))
+                cont.frame = frame if frame is not None else ...
+                t.count('frame_reassigned_before_run')
+            else:
+                cont = scared.Container(sub, frame=frame, preprocesses=list(chain)) if frame is not None or rng.random() < 0.5 else scared.Container(sub, preprocesses=list(chain))
             start = len(log_updates)
             a.run(cont)
             run_marks.append((start, len(log_updates)))
